@@ -13,6 +13,23 @@ WORK = os.path.join(VERIF, "work")
 NPROC = max(1, min(16, os.cpu_count() or 1))
 ENV = dict(os.environ, CARGO_NET_OFFLINE="true")
 
+# Evaluation of seeded changes only (tools/eval_mutation.py): ARP_EVAL_REPO=<scratch worktree> makes the check build a private
+# copy of the harness against that tree and write evidence / replays under work/eval-<tag>/, so that several changed trees can
+# be judged in parallel without touching /repo or the committed evidence.  The registered commands never set it.
+EVAL_REPO = os.environ.get("ARP_EVAL_REPO")
+OUT = VERIF
+if EVAL_REPO:
+    import hashlib
+    EVAL_REPO = os.path.abspath(EVAL_REPO)
+    OUT = os.path.join(WORK, "eval-" + hashlib.md5(EVAL_REPO.encode()).hexdigest()[:8])
+    _h = os.path.join(OUT, "harness")
+    os.makedirs(os.path.join(_h, "src"), exist_ok=True)
+    shutil.copy(os.path.join(HARNESS, "src", "main.rs"), os.path.join(_h, "src", "main.rs"))
+    shutil.copy(os.path.join(HARNESS, "Cargo.lock"), os.path.join(_h, "Cargo.lock"))
+    with open(os.path.join(_h, "Cargo.toml"), "w") as _f:
+        _f.write(open(os.path.join(HARNESS, "Cargo.toml")).read().replace('path = "/repo"', 'path = "%s"' % EVAL_REPO))
+    HARNESS = _h
+
 
 class Lock:
     """file lock so that checks for different properties may run concurrently"""
